@@ -243,6 +243,13 @@ const (
 	// GenData; used by enumerators.  Like ClassRandom it is prefix-stable:
 	// Expand(.., n, seed) is a prefix of Expand(.., m, seed) for n < m.
 	ClassNoise2 = "noise2"
+	// Bulk classes: megabytes of highly repetitive data (a blank page
+	// image), on which the strings of an LZW table grow to thousands of
+	// bytes.  Not drawn by GenData (whose cases are bounded to 96 KiB); used
+	// by the bulk jobs.  Never stored in the case: shape + seed.
+	ClassConst     = "const"     // one byte value (0x00, 0xFF or from the seed)
+	ClassLongRuns  = "longruns"  // two values alternating in runs of 1000-9000 bytes
+	ClassBlankPage = "blankpage" // rows of 0xFF bytes, a few rows of 0x00 (1 bit per sample: white page, black lines)
 )
 
 // Data is the input of a case.  Bytes holds the expanded data if it is small
@@ -406,6 +413,42 @@ func Expand(s Spec, class string, n int, seed uint64) []byte {
 		for i := range out {
 			x, y := i%rb, i/rb
 			out[i] = byte(x*a/2 + y*b + r.Intn(noise))
+		}
+		return out
+	case ClassConst:
+		v := []byte{0xFF, 0x00, byte(r.Intn(256))}[r.Intn(3)]
+		out := make([]byte, size)
+		if v != 0 {
+			for i := range out {
+				out[i] = v
+			}
+		}
+		return out
+	case ClassLongRuns:
+		vals := [2]byte{byte(r.Intn(256)), 0}
+		vals[1] = vals[0] ^ byte(1+r.Intn(255))
+		out := make([]byte, size)
+		for i, k := 0, 0; i < size; k++ {
+			l := 1000 + r.Intn(8001)
+			for j := 0; j < l && i < size; j++ {
+				out[i] = vals[k&1]
+				i++
+			}
+		}
+		return out
+	case ClassBlankPage:
+		out := make([]byte, size)
+		for i := range out {
+			out[i] = 0xFF
+		}
+		for k := 3 + r.Intn(6); k > 0 && n > 0; k-- {
+			row := r.Intn(n)
+			for h := 1 + r.Intn(3); h > 0 && row < n; h-- {
+				for i := row * rb; i < (row+1)*rb; i++ {
+					out[i] = 0
+				}
+				row++
+			}
 		}
 		return out
 	case ClassNoise2:
